@@ -267,7 +267,10 @@ def _pairwise(lb, o, c, deep, own_root):
     if _flags(a) != _flags(n):
       return ('flags', 'node at %r: flags %r in the clone, %r in the original' % (p, _flags(n), _flags(a)))
     da, dn = getattr(a, '__dict__', {}), getattr(n, '__dict__', {})
-    for k, v in ([] if os.environ.get('C07LIB_BEHAVIOUR_ONLY') else da.items()):
+    # White-box aid, OFF by default: sharing a private container is not by itself a violation of the
+    # property (the behavioural checks below -- interference-state, foreign-node -- decide); it is only
+    # a quicker pointer to the cause when debugging (C07LIB_WHITEBOX=1).
+    for k, v in (da.items() if os.environ.get('C07LIB_WHITEBOX') else []):
       if k in _SKIP or k in _EXEMPT:
         continue
       w = dn.get(k, None)
